@@ -926,6 +926,12 @@ func (hs *clientHandshakeState) processServerHello() (bool, error) {
 		return false, errors.New("tls: server selected unsupported compression format")
 	}
 
+	// [uTLS] Application settings exist in TLS 1.3 only (in EncryptedExtensions).
+	if hs.serverHello.utlsApplicationSettings {
+		c.sendAlert(alertUnsupportedExtension)
+		return false, errors.New("tls: server sent application settings at invalid version")
+	}
+
 	if c.handshakes == 0 && hs.serverHello.secureRenegotiationSupported {
 		c.secureRenegotiation = true
 		if len(hs.serverHello.secureRenegotiation) != 0 {
